@@ -45,7 +45,9 @@ func Main(run *lib.Run, prop string) {
 				o.Padding, o.TableSizeChanges = false, false
 			}
 			if i%50 == 25 {
-				o.FrameSizeChanges, o.TableSizeChanges = false, false
+				// (no no-return receivers either: genNoReturn fits the generated bodies to the announced
+				// windows, and EdgeStreams replaces those bodies afterwards)
+				o.FrameSizeChanges, o.TableSizeChanges, o.NoReturn = false, false, false
 			}
 			sc := GenScript(r, o)
 			if i%50 == 25 {
